@@ -184,6 +184,8 @@ def generate(prop, rng, tier):
         elif q < 0.65:
             c = api._gen_call(rng, wp, pool, no_reconcile=True)
             c['op'] = 'e2e'
+            # calls made earlier in the same (fresh) process of each configuration
+            c['prelude'] = [api._gen_call(rng, wp, pool, no_reconcile=True) for _k in range(rng.choice([0, 1, 2]))]
             ops.append(c)
         else:
             ops.append(_gen_direct(rng, wp, pool))
@@ -314,15 +316,26 @@ def _op_e2e(world, spk, rec, op, pool, specs, plan, events, shadow):
     part = tuple(sorted(plan.available - {'cython_get_tau'}))
     if part and set(part) != set(ALL_COMPILED):
         configs.append(part)     # the run's own partial build must agree as well
-    for built in configs:
-        world.plan = BackendPlan(built)
-        world.shadow = None
-        try:
-            st, r = api.try_invoke(spk, pool, op['fn'], op['form'], op['sel'], op['kw'])
-        finally:
-            world.plan = plan
-            world.shadow = shadow
-        res.append((st, norm(r)))
+    # every configuration is a different installation, i.e. a different process: each starts from
+    # the module state PySpike has right after import, runs the same short call sequence, and the
+    # run's own module state is put back afterwards
+    saved = world.snapshot_state(assign=False)
+    try:
+        for built in configs:
+            world.reset_state()
+            world.plan = BackendPlan(built)
+            world.shadow = None
+            try:
+                for pre in op.get('prelude', []):
+                    if all(i < len(pool) for i in pre['sel']):
+                        api.try_invoke(spk, pool, pre['fn'], pre['form'], pre['sel'], pre['kw'])
+                st, r = api.try_invoke(spk, pool, op['fn'], op['form'], op['sel'], op['kw'])
+            finally:
+                world.plan = plan
+                world.shadow = shadow
+            res.append((st, norm(r)))
+    finally:
+        world.reset_state(saved)
     rec.log(('e2e', op['fn'], [(r[0], digest(r[1])) for r in res]))
     rec.compared += 1
     (s1, n1) = res[0]
@@ -442,6 +455,11 @@ def simplify(run):
         yield r
     for r in api.simplify(run):
         yield r
+    for oi, o in enumerate(run['ops']):
+        for k in range(len(o.get('prelude', []))):
+            r = json.loads(json.dumps(run))
+            del r['ops'][oi]['prelude'][k]
+            yield r
     # direct ops: drop pieces of generated functions is not attempted; snap MRTS/max_tau to 0
     for oi, o in enumerate(run['ops']):
         if o['op'] == 'direct':
